@@ -13,7 +13,42 @@ import (
 type Contract struct {
 	D        *Directive
 	Fn       *ssa.Function
-	Modifies []string // parameter names whose referents the callee may write
+	Modifies []string     // parameter names whose referents the callee may write
+	SpecPkg  *ssa.Package // where the pre/post functions live (the package of the contract file)
+}
+
+func (c *Contract) spec(name string) *ssa.Function {
+	p := c.SpecPkg
+	if p == nil {
+		p = c.Fn.Pkg
+	}
+	f := p.Func(name)
+	if f == nil {
+		panic("spec function not found: " + name)
+	}
+	return f
+}
+
+// fnParamIndex finds a parameter by name, also for functions whose body was not built (names from the signature,
+// receiver first).
+func fnParamIndex(fn *ssa.Function, name string) int {
+	if len(fn.Params) > 0 {
+		return paramIndex(fn, name)
+	}
+	i := 0
+	if r := fn.Signature.Recv(); r != nil {
+		if r.Name() == name {
+			return 0
+		}
+		i = 1
+	}
+	ps := fn.Signature.Params()
+	for k := 0; k < ps.Len(); k++ {
+		if ps.At(k).Name() == name {
+			return i + k
+		}
+	}
+	panic("contract names " + name + ", which is not a parameter of " + shortName(fn.String()))
 }
 
 func hasArg(d *Directive, a string) bool {
@@ -46,30 +81,31 @@ func (e *Engine) callModular(s *State, c *Contract, args []Val) Val {
 				fmt.Sscanf(nm, "res%d", &i)
 				pa = append(pa, results[i])
 			default:
-				pa = append(pa, args[paramIndex(fn, nm)])
+				pa = append(pa, args[fnParamIndex(fn, nm)])
 			}
 		}
 		return pa
 	}
 	// 1. the caller owes the precondition
 	if c.D.Pre != "" {
-		pre := fn.Pkg.Func(c.D.Pre)
-		if pre == nil {
-			panic("spec function not found: " + c.D.Pre)
-		}
+		pre := c.spec(c.D.Pre)
 		v := e.evalPure(s, pre, bind(pre, nil, nil), nil).(Term)
 		e.oblig(s, "call.pre["+short+"]"+site, v)
 	}
 	// 2. snapshots for old_x, then havoc what the callee may modify
 	olds := map[string]Val{}
-	need := neededOlds(fn, c.D.Posts)
-	for i, p := range fn.Params {
-		if need[p.Name()] {
-			olds[p.Name()] = e.snapshot(s, args[i])
+	for _, pn := range c.D.Posts {
+		for _, pp := range c.spec(pn).Params {
+			if strings.HasPrefix(pp.Name(), "old_") {
+				base := pp.Name()[4:]
+				if _, done := olds[base]; !done {
+					olds[base] = e.snapshot(s, args[fnParamIndex(fn, base)])
+				}
+			}
 		}
 	}
 	for _, m := range c.Modifies {
-		e.havocArg(s, args[paramIndex(fn, m)])
+		e.havocArg(s, args[fnParamIndex(fn, m)])
 	}
 	// 3. fresh results, constrained only by the postcondition
 	rs := fn.Signature.Results()
@@ -88,10 +124,7 @@ func (e *Engine) callModular(s *State, c *Contract, args []Val) Val {
 		e.stubsUsed[short+" (contract assumed, not proved: "+strings.Join(c.D.Posts, ",")+")"] = true
 	}
 	for _, pn := range c.D.Posts {
-		post := fn.Pkg.Func(pn)
-		if post == nil {
-			panic("spec function not found: " + pn)
-		}
+		post := c.spec(pn)
 		v := e.evalPure(s, post, bind(post, results, olds), nil).(Term)
 		e.assume(s, v)
 	}
@@ -130,6 +163,7 @@ func (e *Engine) havocArg(s *State, v Val) {
 		}
 	case SliceV:
 		// only the window [off, off+len) may change
+		x.Len, x.Off = s.res(x.Len), s.res(x.Off)
 		if x.Len.C != nil && x.Len.C.Int64() <= 32 { // short window of known length: element-wise, no quantifier
 			for i := int64(0); i < x.Len.C.Int64(); i++ {
 				e.storeElem(s, x.Ref, iadd(x.Off, intT(i)), x.Elem, e.declare(s, "hv", elemSort(x.Elem)))
